@@ -96,10 +96,11 @@ pub fn step(kind: &str, body: String) {
 }
 
 /// A move has been made on the search board (the child at `ply` is entered next).
-pub fn down(mv: String, ply: u16) {
+pub fn down(mv: &crate::board::Ply, ply: u16) {
     if !STEPS.load(Ordering::Relaxed) || !recording() {
         return;
     }
+    let mv = mv.to_notation();
     emit(format!("{{\"ev\":\"down\",\"mv\":\"{mv}\",\"ply\":{ply}}}"));
 }
 
